@@ -4,6 +4,9 @@ import json, os
 here = os.path.dirname(os.path.dirname(os.path.abspath(__file__)))
 TECH = "deterministic simulation with fault injection"
 claimed = {
+ "C16": ("exploration", "local store directories produced by a simulated history (complete writes in both formats, writers killed leaving temporary files, corrupted objects, junk) are pruned against reference sets and verified (with and without repair) by n workers under the seeded scheduler; oracle: exact expected file set and exact set of reported chunk ids, classified by an independent validator",
+         "sampling; the name filter itself is a pure function of the listing (stated partial scope); S3 and SFTP prune not exercised",
+         TECH + " (fault-produced store states, seeded scheduler for concurrent verify, set-equality oracle)"),
  "C08": ("fault_enumeration", "part A: for ChopFile, Copy and concurrent StoreChunk into a real LocalStore a seeded schedule with every file-system call as a scheduling point is recorded, then process death is injected at every file-system point (clean and as a torn write of the file that just grew); an independent zstd+SHA validator inspects the directory, Prune must remove exactly the temporary files, restarts must complete. part B: the real desync extract binary is SIGKILLed while request k is held by a gated HTTP chunk server, for every k: without --in-place the destination is untouched, with it a re-run completes correctly and does not refetch written chunks",
          "exhaustive over file-system points of each recorded schedule (<= 120) and over request indexes of each extract; death = freeze (equivalent to SIGKILL for file contents); torn writes at whole-file granularity; power loss out of scope",
          TECH + " (crash-point enumeration with torn writes, independent store validator, real binary under a gated server)"),
